@@ -109,6 +109,8 @@ structure Exec where
   launch : Nat
   pdws : Bool        -- producers_done_when_i_started
   avail : Bool       -- at launch: every same-stage producer has output (`canConsume` of that moment)
+  started : Bool     -- the task generator returned a Task object: an execution was really started (`false`: the
+                     -- launch itself failed, the generator raised - an attempt, but no execution)
   deriving DecidableEq, Repr
 
 structure St where
@@ -207,7 +209,7 @@ def engStep (cfg : Cfg) (s : St) (o : Outcome) : St :=
     let consume := s.consume || canConsume cfg s.outs
     if consume && (isNew || cfg.noProd) then
       { s with consume := consume, lastLaunched := s.clock, aged := false,
-               execLog := ⟨s.clock, pdws, canConsume cfg s.outs⟩ :: s.execLog,
+               execLog := ⟨s.clock, pdws, canConsume cfg s.outs, o != .raised⟩ :: s.execLog,
                hasProc := s.hasProc || (o != .raised),
                procKilled := false,
                pc := .running isNew fc pdws o }
